@@ -66,13 +66,13 @@ struct HSel : Harness {
     int plan_strategy = sc.strategy;
     // A: one worker, canonical schedule
     SOut A, B;
-    sim_cfg sa = sc; sa.strategy = SIM_S0_SEQUENTIAL; sa.replay = nullptr; sa.n_replay = 0; sa.step_limit = 2000000000ULL;
+    sim_cfg sa = sc; sa.strategy = SIM_S0_SEQUENTIAL; sa.replay = nullptr; sa.n_replay = 0; sa.step_limit = 2000000000ULL; sa.garbage_mode = 2;  // reference run: fresh memory is zero; explored run: huge finite garbage
     sim_begin_run(&sa);
     SCall ca{&c, &A, 1};
     int rca = sim_guard(call_alg, &ca);
     sim_result sra; sim_end_run(&sra);
     // B: requested thread count under the plan's schedule and another clock origin
-    sim_cfg sb = sc; sb.clock0 += 99991; sb.step_limit = 2000000000ULL;
+    sim_cfg sb = sc; sb.clock0 += 99991; sb.step_limit = 2000000000ULL; sb.garbage_mode = 3;
     sim_begin_run(&sb);
     SCall cb{&c, &B, c.nthreads};
     int rcb = sim_guard(call_alg, &cb);
